@@ -504,4 +504,9 @@ def main():
     die(2, __doc__)
 
 if __name__ == '__main__':
-    main()
+    try:
+        main()
+    except OSError as e:
+        # infrastructure trouble (a binary or scratch file vanished, disk full, ...) is never a verdict
+        print('verifctl: infrastructure error: %s' % e, file=sys.stderr)
+        sys.exit(2)
